@@ -27,6 +27,7 @@ var c18Queries = []struct{ Kind, SQL string }{
 	{"analytic", "SELECT id, lag(a) AS la, verif_boom(a) AS b FROM stream"},
 	{"cep", "SELECT * FROM stream MATCH_RECOGNIZE ( ORDER BY ts MEASURES MATCH_NUMBER() AS mn, COUNT(A.a) AS n ONE ROW PER MATCH PATTERN (A+ B) DEFINE A AS a > 2, B AS a <= 2 )"},
 	{"cep_open", "SELECT * FROM stream MATCH_RECOGNIZE ( ORDER BY ts MEASURES MATCH_NUMBER() AS mn, COUNT(A.a) AS n ONE ROW PER MATCH PATTERN (A+) WITHIN '300ms' DEFINE A AS a > 1 )"},
+	{"cep_boom", "SELECT * FROM stream MATCH_RECOGNIZE ( ORDER BY ts MEASURES MATCH_NUMBER() AS mn, COUNT(A.a) AS n ONE ROW PER MATCH PATTERN (A+ B) DEFINE A AS verif_boom(a) > 2, B AS a <= 2 )"},
 	{"tumbling_pt", "SELECT count(*) AS c, collect(id) AS ids FROM stream GROUP BY TumblingWindow('200ms')"},
 	{"tumbling_et", "SELECT count(*) AS c, collect(id) AS ids FROM stream GROUP BY TumblingWindow('200ms') WITH (TIMESTAMP='ts', TIMEUNIT='ms', MAXOUTOFORDERNESS='50ms', ALLOWEDLATENESS='100ms')"},
 	{"sliding_pt", "SELECT count(*) AS c, collect(id) AS ids FROM stream GROUP BY SlidingWindow('300ms', '100ms')"},
